@@ -27,7 +27,7 @@ theorem tail_clean (c : Cfg) (ar aq : Nat) (s : S) (b : Base c ar aq s) (hcl : s
     (ph : Phase) (ps : Nat) (nt : Bool) :
     Inv c ar aq { s with running := false, phase := ph, pass := ps, notify := nt } := by
   obtain ⟨k1, k2, k4, k9, k10, k11, k12, k13, k14, k20, k21, k22, k31⟩ := b
-  refine ⟨?_, k1, k2, ?_, k4, ?_, ?_, ?_, ?_, k9, k10, k11, k12, k13, k14, ?_, ?_, ?_, ?_, ?_, k20, k21, k22, ?_, ?_, ?_, ?_, ?_, ?_, ?_, ?_, k31⟩
+  refine ⟨?_, k1, k2, ?_, k4, ?_, ?_, ?_, ?_, k9, k10, k11, k12, k13, k14, ?_, ?_, ?_, ?_, ?_, k20, k21, k22, ?_, ?_, ?_, ?_, ?_, ?_, ?_, ?_, k31, ?_⟩
   · simp [K0, hcl]
   · intro _; exact hcl
   · intro _; exact hcl
@@ -134,7 +134,7 @@ theorem tail_direct (c : Cfg) (ar aq : Nat) (s : S) (b : Base c ar aq s) (hrun :
     simp [reenter, hpass, loopBudget]
   rw [hre]
   obtain ⟨k1, k2, k4, k9, k10, k11, k12, k13, k14, k20, k21, k22, k31⟩ := b
-  refine ⟨?_, k1, k2, h3, k4, ?_, h6, ?_, ?_, ?_, k10, k11, k12, ?_, k14, ?_, ?_, ?_, ?_, ?_, k20, k21, k22, ?_, ?_, ?_, ?_, ?_, ?_, ?_, ?_, ?_⟩
+  refine ⟨?_, k1, k2, h3, k4, ?_, h6, ?_, ?_, ?_, k10, k11, k12, ?_, k14, ?_, ?_, ?_, ?_, ?_, k20, k21, k22, ?_, ?_, ?_, ?_, ?_, ?_, ?_, ?_, ?_, ?_⟩
   · simp [K0, hrun, hcl]
   · intro hh; simp [hpd] at hh
   · intro _; exact ⟨hsr, rfl⟩
@@ -157,6 +157,7 @@ theorem tail_direct (c : Cfg) (ar aq : Nat) (s : S) (b : Base c ar aq s) (hrun :
   · intro _ _ hh; simp at hh
   · intro _ hh; simp at hh
   · intro hh; simp at hh
+  · intro _ hh; simp [how] at hh
 
 /-- a local reply is pending or the upstream was reset (one-way): the worker re-enters at `Oneway` -/
 theorem tail_oneway (c : Cfg) (ar aq : Nat) (s : S) (b : Base c ar aq s) (hrun : s.running = true) (hcl : s.cleaned = false)
@@ -170,7 +171,7 @@ theorem tail_oneway (c : Cfg) (ar aq : Nat) (s : S) (b : Base c ar aq s) (hrun :
   rw [hre]
   obtain ⟨k1, k2, k4, k9, k10, k11, k12, k13, k14, k20, k21, k22, k31⟩ := b
   have hlc := k20 how
-  refine ⟨?_, k1, k2, h3, k4, ?_, h6, ?_, ?_, ?_, k10, k11, k12, ?_, k14, ?_, ?_, ?_, ?_, ?_, k20, k21, k22, ?_, ?_, ?_, ?_, ?_, ?_, ?_, ?_, ?_⟩
+  refine ⟨?_, k1, k2, h3, k4, ?_, h6, ?_, ?_, ?_, k10, k11, k12, ?_, k14, ?_, ?_, ?_, ?_, ?_, k20, k21, k22, ?_, ?_, ?_, ?_, ?_, ?_, ?_, ?_, ?_, ?_⟩
   · simp [K0, hrun, hcl]
   · intro hh; simp [hpd] at hh
   · intro _; exact ⟨hsr, rfl⟩
@@ -197,6 +198,7 @@ theorem tail_oneway (c : Cfg) (ar aq : Nat) (s : S) (b : Base c ar aq s) (hrun :
   · rcases hheld with h | ⟨h, _⟩
     · simpa [K31, h] using k31
     · simp [K31, h]
+  · intro _ _; simp [upPhase]
 
 /-- a retry was set up: the worker re-enters at `Retry` (a retry pass keeps the loop budget) -/
 theorem tail_retry (c : Cfg) (ar aq : Nat) (s : S) (b : Base c ar aq s) (hrun : s.running = true) (hcl : s.cleaned = false)
@@ -212,7 +214,7 @@ theorem tail_retry (c : Cfg) (ar aq : Nat) (s : S) (b : Base c ar aq s) (hrun : 
     simp [reenter, hpass, loopBudget, hk]
   rw [hre]
   obtain ⟨k1, k2, k4, k9, k10, k11, k12, k13, k14, k20, k21, k22, k31⟩ := b
-  refine ⟨?_, k1, k2, h3, k4, ?_, h6, ?_, ?_, k9, k10, k11, k12, ?_, k14, ?_, ?_, ?_, ?_, ?_, k20, k21, k22, ?_, ?_, ?_, ?_, ?_, ?_, ?_, ?_, k31⟩
+  refine ⟨?_, k1, k2, h3, k4, ?_, h6, ?_, ?_, k9, k10, k11, k12, ?_, k14, ?_, ?_, ?_, ?_, ?_, k20, k21, k22, ?_, ?_, ?_, ?_, ?_, ?_, ?_, ?_, k31, ?_⟩
   · simp [K0, hrun, hcl]
   · intro hh; simp [hpd] at hh
   · intro _; exact ⟨rfl, hdir⟩
@@ -237,5 +239,6 @@ theorem tail_retry (c : Cfg) (ar aq : Nat) (s : S) (b : Base c ar aq s) (hrun : 
   · intro _ hh; simp at hh
   · intro _ _ _; simp
   · intro _ hh; simp at hh
+  · intro _ hh; simp [how] at hh
 
 end MosnVerif.Model.Downstream
